@@ -2,7 +2,7 @@
 from bounded import families, runner
 
 RULES = {
-    'dist': 'one pc-relative transfer per program (15 forms x byte distances around 0, 256, 2048, 4096 both directions x lead-in), assembled in both modes; non-trivial = assembled in at least one mode; distinct by (form, distance, lead)',
+    'dist': 'one pc-relative transfer per program (19 forms incl. explicit c.j / c.jal / c.beqz / c.bnez with a label operand x byte distances around 0, 256, 2048, 4096 both directions x lead-in), assembled in both modes; non-trivial = assembled in at least one mode; distinct by (form, distance, lead)',
     'far': 'jumps/calls across a 1 MiB align with the label 0..4096 bytes past it, forward and backward, both modes',
     'mix': 'every/sampled sequence of k items over a 20-item alphabet (instructions, compressible instructions, li of each size class, call/tail/j, branches, data of odd and even size, aligns 3/4/8, strings) with a label at every gap and every label taken as the reference target in turn',
     'align': 'align N for N in 1..17, 32, 100, 4096 at residues 0..8, N-1, N, N+1, several aligns in a row, label data words',
@@ -10,7 +10,7 @@ RULES = {
     'val': 'label arithmetic (%offset %position %hi %lo bare labels) in instructions and dw/dd/dh/pack data at 6 gaps, both directions',
     'cedge': 'literal operands on both sides of every RVC operand-set boundary (7.4k instructions)',
     'pseudo': 'every simple pseudo-instruction over register choices incl. x0/x2/rd=rs; pseudo-branches at 11 distances',
-    'rand': 'seeded random programs of 3-12 items over a 59-item alphabet (label arithmetic in instructions and data, explicit c.* source instructions, li of every size class, aligns 2/3/4/5/8/16, transfers of every form), a label at every gap, random targets (quick 300, thorough 6000; VERIF_SEED)',
+    'rand': 'seeded random programs of 3-12 items over a 64-item alphabet (label arithmetic in instructions and data, explicit c.* source instructions, li of every size class, aligns 2/3/4/5/8/16, transfers of every form), a label at every gap, random targets (quick 300, thorough 6000; VERIF_SEED)',
     'hilo': '%hi / %lo of literals, constants and %position expressions: 9 upper-field classes x 8 low-field classes in the unsigned and the negative spelling, plus -2**31, -1, 2**32-1; consumed by lui+addi, lui+lw/sw, jalr, li; every program must assemble',
     'data': 'data directives at the ends of every width, pack formats, ASCII strings with escapes',
 }
